@@ -59,6 +59,33 @@ theorem sample_keys_required (kvs : List (Key × Json)) (k : Key) :
     k ∈ (infer (.obj kvs)).req ↔ k ∈ keys kvs := by
   simp [infer, Node.empty, add, Node.req, dedup_mem]
 
+/-- CSV input: the sample the schema is inferred from has exactly the header names as keys, each paired with a string,
+for EVERY first row — rectangular, shorter than the header, or longer (surplus cells, a trailing delimiter). -/
+theorem csv_sample_is_header (header : List Key) (row : List (List Char)) :
+    csvSample header row = .obj (header.map (fun h => (h, Json.str h))) := by
+  unfold csvSample dictReaderKeys
+  congr 1
+  generalize (if header.length < row.length then [none] else []) = tail
+  induction header with
+  | nil => cases tail <;> rfl
+  | cons h hs ih => simp only [List.map_cons, List.cons_append, List.zip_cons_cons, List.filterMap_cons, Option.map_some, ih]
+
+/-- … so the inferred schema does not depend on the row at all, and it accepts the header/row pair of every row that has a
+cell for every column (all cells of a CSV file are strings). -/
+theorem csv_schema_row_independent (header : List Key) (row row' : List (List Char)) :
+    infer (csvSample header row) = infer (csvSample header row') := by
+  rw [csv_sample_is_header, csv_sample_is_header]
+
+theorem csv_pair_accepted (header : List Key) (row : List (List Char)) (cells : Key → List Char) :
+    validL (infer (csvSample header row)) (.obj (header.map (fun h => (h, Json.str (cells h))))) = true := by
+  rw [csv_sample_is_header, valid_flat_str _ header cells (fun h => h)]
+  exact infer_valid _
+
+/-- non-vacuity: a row with a trailing delimiter (one surplus, empty cell) -/
+example : csvSample ["id".toList, "name".toList] ["1".toList, "Ada".toList, [] ] =
+    .obj [("id".toList, .str "id".toList), ("name".toList, .str "name".toList)] := by
+  rw [csv_sample_is_header]; rfl
+
 /-- An empty array yields no `items` constraint (`{"type": "array"}`): any later array is accepted. -/
 theorem empty_array_unconstrained (ys : List Json) : validL (infer (.arr [])) (.arr ys) = true := by
   have h : ∀ y, validL Node.empty y = true := by
